@@ -774,3 +774,124 @@ Proof.
       destruct (J2 x (or_intror E0)) as [A|A]; [contradiction | assumption].
     + apply soq_del; [assumption|]. apply J1; notin.
 Qed.
+
+Lemma step_keeps_J : forall f0 c f b o g b',
+  J f0 c f b -> step c f b o = Ok (g, b') -> J f0 c g b'.
+Proof.
+  intros f0 c f b o g b' HJ H. apply step_decide in H. destruct H as [e [D ->]].
+  eapply decide_keeps_J; eauto.
+Qed.
+
+Lemma exec_keeps_J : forall f0 c t f b g b',
+  J f0 c f b -> exec c f b t = Ok (g, b') -> J f0 c g b'.
+Proof.
+  intros f0 c t. induction t as [|o t IH]; intros f b g b' HJ H; simpl in H.
+  - inversion H; subst. assumption.
+  - destruct (step c f b o) as [[f1 b1]|code] eqn:S; [|discriminate].
+    eapply IH; [|exact H]. eapply step_keeps_J; eauto.
+Qed.
+
+(* ------------------------------------------------------------------ return_clean *)
+Definition clean (c : config) (b : bk) : bool :=
+  forallb (fun p => negb (under (c_scratch c) p)) (b_created b ++ b_dirs b).
+
+Lemma decide_done : forall c f b o e b',
+  decide c f b o = Ok (e, b') ->
+  match o with
+  | Return ok => b_done b' = true /\ (ok || c_strict c = true -> clean c b' = true)
+  | _ => b_done b' = false
+  end.
+Proof.
+  intros c f b o e b' H.
+  assert (D : b_done b = false) by (eapply decide_not_done; eauto).
+  decide_inv H; bk_simpl; auto; split; auto; intro; try discriminate.
+  all: unfold clean; bk_simpl; try assumption.
+Qed.
+
+Lemma exec_done_nil : forall c t f b g b',
+  b_done b = true -> exec c f b t = Ok (g, b') -> t = [].
+Proof.
+  intros c t f b g b' D H. destruct t as [|o t]; [reflexivity|]. simpl in H.
+  unfold step, decide in H. rewrite D in H. discriminate.
+Qed.
+
+Lemma exec_clean : forall c t f b g b',
+  b_done b = false -> must_be_clean c t = true -> exec c f b t = Ok (g, b') -> clean c b' = true.
+Proof.
+  intros c t. induction t as [|o t IH]; intros f b g b' D M H; simpl in *; [discriminate|].
+  destruct (step c f b o) as [[f1 b1]|code] eqn:S; [|discriminate].
+  apply step_decide in S. destruct S as [e [Dd _]]. apply decide_done in Dd.
+  destruct o as [x|x cid|x tr cid|x|x|x|x y|x|ok];
+    try (simpl in M; eapply IH; eauto; fail).
+  destruct Dd as [D1 Hc]. pose proof (exec_done_nil _ _ _ _ _ _ D1 H) as ->.
+  simpl in H. inversion H; subst. simpl in M. rewrite orb_false_r in M. auto.
+Qed.
+
+Lemma clean_spec : forall c b p,
+  clean c b = true -> In p (b_created b) \/ In p (b_dirs b) -> under (c_scratch c) p = false.
+Proof.
+  intros c b p H Hp. unfold clean in H. rewrite forallb_forall in H.
+  apply negb_true_iff. apply H. apply in_or_app. assumption.
+Qed.
+
+(* ------------------------------------------------------------------ c19_acceptor_sound *)
+Theorem acceptor_sound : forall c f0 t g,
+  accept c f0 t = Accepted g ->
+  (* inputs keep their content (the query file unless obsm_key is set) *)
+  (forall i, In i (c_inputs c) -> lookup f0 i <> None -> ~ In i (c_outputs c) -> wq c i = false ->
+             lookup g i = lookup f0 i) /\
+  (* after a Return that obliges to clean up (ok, or error of a mapping run):
+     the scratch directory is exactly as it was ... *)
+  (must_be_clean c t = true -> outside_scratch c = true ->
+     forall p, under (c_scratch c) p = true -> lookup g p = lookup f0 p) /\
+  (* ... and nothing exists that did not exist before, except declared outputs *)
+  (must_be_clean c t = true ->
+     forall p, lookup f0 p = None -> lookup g p <> None -> In p (c_outputs c)) /\
+  (* in any case: whatever is new lies at a declared output or under scratch *)
+  (forall p, lookup f0 p = None -> lookup g p <> None ->
+             In p (c_outputs c) \/ under (c_scratch c) p = true).
+Proof.
+  intros c f0 t g H. apply accept_exec in H. destruct H as [b' [E D]].
+  pose proof (exec_keeps_J f0 c t f0 bk0 g b' (J_init c f0) E) as [J1 [J2 [J3 [J3b J4]]]].
+  assert (NEW : forall p, lookup f0 p = None -> lookup g p <> None ->
+                          In p (b_owned b') \/ In p (b_created b') \/ In p (b_dirs b')).
+  { intros p H0 Hg.
+    destruct (mem p (b_owned b')) eqn:Mo; [apply mem_In in Mo; auto|]. apply mem_false in Mo.
+    destruct (mem p (b_created b')) eqn:Mc; [apply mem_In in Mc; auto|]. apply mem_false in Mc.
+    destruct (mem p (b_dirs b')) eqn:Md; [apply mem_In in Md; auto|]. apply mem_false in Md.
+    exfalso. destruct (J1 p Mc Md Mo) as [A|[_ [_ A]]].
+    - congruence.
+    - rewrite H0 in A. discriminate. }
+  split; [|split; [|split]].
+  - intros i Hi He Ho Hq.
+    assert (Mo : ~ In i (b_owned b')) by (intro A; apply Ho; apply J4; assumption).
+    assert (Mc : ~ In i (b_created b')).
+    { intro A. destruct (J2 i (or_introl A)); [contradiction | congruence]. }
+    assert (Md : ~ In i (b_dirs b')).
+    { intro A. destruct (J2 i (or_intror A)); [contradiction | congruence]. }
+    destruct (J1 i Mc Md Mo) as [A|[A _]]; [assumption | congruence].
+  - intros M Hout p Hu.
+    pose proof (exec_clean c t f0 bk0 g b' eq_refl M E) as C.
+    assert (Mo : ~ In p (b_owned b')).
+    { intro A. apply J4 in A. pose proof (outside_scratch_spec c p Hout (or_intror (or_intror A))) as X.
+      apply under_is_prefix in Hu. congruence. }
+    assert (Mc : ~ In p (b_created b')).
+    { intro A. pose proof (clean_spec c b' p C (or_introl A)). congruence. }
+    assert (Md : ~ In p (b_dirs b')).
+    { intro A. pose proof (clean_spec c b' p C (or_intror A)). congruence. }
+    destruct (J1 p Mc Md Mo) as [A|[A _]]; [assumption|].
+    apply wq_spec in A. destruct A as [_ ->].
+    pose proof (outside_scratch_spec c (c_query c) Hout (or_introl eq_refl)) as X.
+    apply under_is_prefix in Hu. congruence.
+  - intros M p H0 Hg.
+    pose proof (exec_clean c t f0 bk0 g b' eq_refl M E) as C.
+    destruct (NEW p H0 Hg) as [A|[A|A]].
+    + apply J4. assumption.
+    + destruct (J3 p A) as [B|B]; [apply J4; assumption|].
+      pose proof (clean_spec c b' p C (or_introl A)). congruence.
+    + pose proof (J3b p A). pose proof (clean_spec c b' p C (or_intror A)). congruence.
+  - intros p H0 Hg. destruct (NEW p H0 Hg) as [A|[A|A]].
+    + left. apply J4. assumption.
+    + destruct (J3 p A) as [B|B]; [left; apply J4; assumption | right; assumption].
+    + right. apply J3b. assumption.
+Qed.
